@@ -209,6 +209,15 @@ def check_c11(out, tier):
         out.violation("L1.%s" % inv, {"model": "MC_SchemaEquiv"}, r["out"][-1500:])
     k = pipeline.SIZES[tier]
     judge_docs(out, c11_cases(rnd, 300 * k, "c11g"), ["C11"], mine)
+    pins = []
+    for p in common.load_pinned("C11"):
+        if "case" in p:
+            c = dict(p["case"])
+            c["id"] = "pin:" + p["file"]
+            pins.append(c)
+    if pins:
+        judge_docs(out, pins, ["C11"], mine, label="pinned reproducer")
+        out.notes["pinned_reproducers"] = [c["id"] for c in pins]
     out.exhaustive = False
     return ("both serialisations of one Shaper (disable_or_statements at its default) over general graphs x inference switches x inverse "
             "paths x thresholds x class targets: one node shape per ShExC shape (same IRI, sh:targetClass = the class), one property shape "
